@@ -146,8 +146,7 @@ fn read_phase(rq: &mut tiny_http_rt::Request, a: &Action, idx: usize, log: &Log)
         let mut buf = vec![0u8; std::cmp::max(1, a.buf)];
         while got < a.read_total {
             let want = std::cmp::min(buf.len(), a.read_total - got);
-            // odd request sizes go through `read_vectored` with one buffer: the same read
-                    match if want % 2 == 1 { reader.read_vectored(&mut [std::io::IoSliceMut::new(&mut buf[..want])]) } else { reader.read(&mut buf[..want]) } {
+            match verif_harness::connrun::read_some(reader, &mut buf, want) {
                 Ok(0) => {
                     end = "eof";
                     break;
